@@ -9,6 +9,7 @@ triage.
 operators:
   guard   wrap a simple statement in `if _SWEEP_:` (it may now be skipped)
   delete  replace a simple statement by `pass`
+  early   insert `if _SWEEP_: return` before a simple statement (everything after it may be skipped)
   cmp     < <-> <=, > <-> >=, == <-> !=
   arith   + <-> -, * <-> /
   const   integer literal n -> n+1 (indices, offsets, exponents)
@@ -62,6 +63,8 @@ def variants(tree, fnode, ops):
                 yield ('guard', n.lineno, ast.unparse(n)[:90], ('guard', i))
             if 'delete' in ops and not isinstance(n, (ast.Return, ast.Raise)):
                 yield ('delete', n.lineno, ast.unparse(n)[:90], ('delete', i))
+            if 'early' in ops:
+                yield ('early', n.lineno, 'if _SWEEP_: return  # before: ' + ast.unparse(n)[:70], ('early', i))
         if 'cmp' in ops and isinstance(n, ast.Compare) and len(n.ops) == 1:
             m = {ast.Lt: ast.LtE, ast.LtE: ast.Lt, ast.Gt: ast.GtE, ast.GtE: ast.Gt, ast.Eq: ast.NotEq,
                  ast.NotEq: ast.Eq}.get(type(n.ops[0]))
@@ -93,7 +96,7 @@ def apply(tree, fpath, edit):
     nodes = list(ast.walk(f))
     kind, i = edit
     n = nodes[i]
-    if kind in ('guard', 'delete'):
+    if kind in ('guard', 'delete', 'early'):
         # find parent list
         for p in ast.walk(f):
             for fld in ('body', 'orelse', 'finalbody', 'handlers'):
@@ -102,6 +105,9 @@ def apply(tree, fpath, edit):
                     k = lst.index(n)
                     if kind == 'guard':
                         lst[k] = ast.If(test=ast.Name(id='_SWEEP_', ctx=ast.Load()), body=[n], orelse=[])
+                    elif kind == 'early':
+                        lst.insert(k, ast.If(test=ast.Name(id='_SWEEP_', ctx=ast.Load()),
+                                             body=[ast.Return(value=None)], orelse=[]))
                     else:
                         lst[k] = ast.Pass()
                     ast.fix_missing_locations(t)
